@@ -25,7 +25,7 @@ impl Sl {
     pub open spec fn start(&self) -> int { self.off as int }
     pub open spec fn end(&self) -> int { self.off + self.len * self.stride }
     // a reference is valid only if its extent fits the address space
-    pub open spec fn valid(&self) -> bool { self.end() <= usize::MAX }
+    pub open spec fn valid(&self) -> bool { self.end() <= usize::MAX && self.len * self.stride * size_of_t() <= isize::MAX && (self.stride == 1 ==> self.len * size_of_t() <= isize::MAX) }
     pub fn len(&self) -> (r: usize) ensures r == self.len { self.len }
     pub fn is_empty(&self) -> (r: bool) ensures r == (self.len == 0) { self.len == 0 }
     // slice.as_ptr() / as_mut_ptr() / `self as *const Self`: provenance is the whole referent
@@ -43,10 +43,22 @@ impl Sl {
 // NonNull::dangling().as_ref() / as_mut(): a well-aligned address that is NOT derived from any reference in scope (nothing is known about it)
 #[verifier::external_body]
 pub fn dangling_ref() -> (s: Sl) { unimplemented!() }
-// mem::size_of::<T>(): some fixed size, possibly zero
+// Byte sizes (rule R-bytes).  mem::size_of::<T>() is some fixed size, POSSIBLY ZERO; align_of::<T>() is at least 1.
+// By C01 a GenericArray<T, N> occupies exactly N * size_of::<T>() bytes; no Rust object exceeds isize::MAX bytes, so the byte
+// size of an array type and of a valid slice fits a usize (axioms of the language, stated as contracts of these primitives).
 pub uninterp spec fn size_of_t() -> usize;
+pub uninterp spec fn align_of_t() -> usize;
 #[verifier::external_body]
 pub fn size_of_elem() -> (r: usize) ensures r == size_of_t() { unimplemented!() }
+#[verifier::external_body]
+pub fn align_of_elem() -> (r: usize) ensures r == align_of_t(), r >= 1 { unimplemented!() }
+#[verifier::external_body]
+pub fn size_of_array<N: ArrayLength>() -> (r: usize) ensures r as int == N::n() * size_of_t() { unimplemented!() }
+impl Sl {
+    // mem::size_of_val(slice)
+    #[verifier::external_body]
+    pub fn size_of_val(&self) -> (r: usize) ensures r as int == self.len * self.stride * size_of_t() { unimplemented!() }
+}
 impl Ptr {
     // `p as *const X`: same address and provenance, the pointee now spans `stride` elements
     #[verifier::external_body]
@@ -81,8 +93,8 @@ proof fn lemma_chunks(l: usize, n: usize)
     assert((l / n) * n == n * (l / n)) by (nonlinear_arith);
     let q = (l / n) as int; let r = (l % n) as int;
     assert(l as int == (n as int) * q + r && 0 <= r < n as int && 0 <= q);
-    if l < n { assert(q == 0) by (nonlinear_arith) requires l as int == (n as int) * q + r, 0 <= r, (l as int) < n as int, n > 0, 0 <= q; }
-    if l == n { assert(q == 1) by (nonlinear_arith) requires l as int == (n as int) * q + r, 0 <= r < n as int, l as int == n as int, n > 0, 0 <= q; }
+    if l < n { assert(q == 0) by (nonlinear_arith) requires l as int == (n as int) * q + r, 0 <= r, (l as int) < n as int, n > 0, 0 <= q; assert((n as int) * q == 0) by (nonlinear_arith) requires q == 0; }
+    if l == n { assert(q == 1) by (nonlinear_arith) requires l as int == (n as int) * q + r, 0 <= r < n as int, l as int == n as int, n > 0, 0 <= q; assert((n as int) * q == n as int) by (nonlinear_arith) requires q == 1; }
 }
 // arithmetic facts about L / N and L % N offered to every chunking function at entry (a body that takes a different but
 // equivalent route - an early return for L < N, say - must not fail for want of a division lemma)
@@ -175,7 +187,7 @@ impl Sl {
     }
     proof fn reach_from_slice<N: ArrayLength>(slice: Sl) requires slice.stride == 1, slice.valid(), { assert(false); } /*OB:canary.from_slice:*/
 
-    // extracted from src/lib.rs:730  `fn from_mut_slice(slice: &mut [T]) -> &mut GenericArray<T, N>`
+    // extracted from src/lib.rs:733  `fn from_mut_slice(slice: &mut [T]) -> &mut GenericArray<T, N>`
     pub fn from_mut_slice<N: ArrayLength>(slice: Sl) -> (ret: PanicOr<Sl>)
         requires
             slice.stride == 1,
@@ -210,13 +222,16 @@ impl Sl {
             if slice.len() != N::usize_() {
                 return PanicOr::Ret(Err(LengthError));
             }
+            if !(slice.len() * size_of_elem() == size_of_array::<N>()) {
+                assert(false) /*OB:views.debug-assertion-can-never-fail:C02,C10,C18*/;
+            }
             Ok({ deref(slice.as_ptr().cast(N::usize_())) })
         };
         PanicOr::Ret(__r)
     }
     proof fn reach_try_from_slice<N: ArrayLength>(slice: Sl) requires slice.stride == 1, slice.valid(), { assert(false); } /*OB:canary.try_from_slice:*/
 
-    // extracted from src/lib.rs:744  `fn try_from_mut_slice( slice: &mut [T], ) -> Result<&mut GenericArray<T, N>, LengthError>`
+    // extracted from src/lib.rs:747  `fn try_from_mut_slice( slice: &mut [T], ) -> Result<&mut GenericArray<T, N>, LengthError>`
     pub fn try_from_mut_slice<N: ArrayLength>(slice: Sl) -> (ret: PanicOr<Result<Sl, LengthError>>)
         requires
             slice.stride == 1,
@@ -235,7 +250,7 @@ impl Sl {
     }
     proof fn reach_try_from_mut_slice<N: ArrayLength>(slice: Sl) requires slice.stride == 1, slice.valid(), { assert(false); } /*OB:canary.try_from_mut_slice:*/
 
-    // extracted from src/lib.rs:760  `fn chunks_from_slice(slice: &[T]) -> (&[GenericArray<T, N>], &[T])`
+    // extracted from src/lib.rs:763  `fn chunks_from_slice(slice: &[T]) -> (&[GenericArray<T, N>], &[T])`
     pub fn chunks_from_slice<N: ArrayLength>(slice: Sl) -> (ret: PanicOr<(Sl, Sl)>)
         requires
             slice.stride == 1,
@@ -256,9 +271,6 @@ impl Sl {
                 return PanicOr::Ret((Sl::empty_of(N::usize_()), Sl::empty_of(1)));
             }
             let num_chunks = slice.len() / N::usize_();
-            proof {
-                lemma_chunks(slice.len, N::n());
-            }
             let num_in_chunks = num_chunks * N::usize_();
             let num_remainder = slice.len() - num_in_chunks;
             {
@@ -269,7 +281,7 @@ impl Sl {
     }
     proof fn reach_chunks_from_slice<N: ArrayLength>(slice: Sl) requires slice.stride == 1, slice.valid(), { assert(false); } /*OB:canary.chunks_from_slice:*/
 
-    // extracted from src/lib.rs:786  `fn chunks_from_slice_mut(slice: &mut [T]) -> (&mut [GenericArray<T, N>], &mut [T])`
+    // extracted from src/lib.rs:789  `fn chunks_from_slice_mut(slice: &mut [T]) -> (&mut [GenericArray<T, N>], &mut [T])`
     pub fn chunks_from_slice_mut<N: ArrayLength>(slice: Sl) -> (ret: PanicOr<(Sl, Sl)>)
         requires
             slice.stride == 1,
@@ -290,9 +302,6 @@ impl Sl {
                 return PanicOr::Ret((Sl::empty_of(N::usize_()), Sl::empty_of(1)));
             }
             let num_chunks = slice.len() / N::usize_();
-            proof {
-                lemma_chunks(slice.len, N::n());
-            }
             let num_in_chunks = num_chunks * N::usize_();
             let num_remainder = slice.len() - num_in_chunks;
             {
@@ -303,7 +312,7 @@ impl Sl {
     }
     proof fn reach_chunks_from_slice_mut<N: ArrayLength>(slice: Sl) requires slice.stride == 1, slice.valid(), { assert(false); } /*OB:canary.chunks_from_slice_mut:*/
 
-    // extracted from src/lib.rs:810  `fn slice_from_chunks(slice: &[GenericArray<T, N>]) -> &[T]`
+    // extracted from src/lib.rs:813  `fn slice_from_chunks(slice: &[GenericArray<T, N>]) -> &[T]`
     pub fn slice_from_chunks<N: ArrayLength>(slice: Sl) -> (ret: PanicOr<Sl>)
         requires
             slice.stride == N::n(),
@@ -321,7 +330,7 @@ impl Sl {
     }
     proof fn reach_slice_from_chunks<N: ArrayLength>(slice: Sl) requires slice.stride == N::n(), slice.valid(), { assert(false); } /*OB:canary.slice_from_chunks:*/
 
-    // extracted from src/lib.rs:816  `fn slice_from_chunks_mut(slice: &mut [GenericArray<T, N>]) -> &mut [T]`
+    // extracted from src/lib.rs:819  `fn slice_from_chunks_mut(slice: &mut [GenericArray<T, N>]) -> &mut [T]`
     pub fn slice_from_chunks_mut<N: ArrayLength>(slice: Sl) -> (ret: PanicOr<Sl>)
         requires
             slice.stride == N::n(),
@@ -339,7 +348,7 @@ impl Sl {
     }
     proof fn reach_slice_from_chunks_mut<N: ArrayLength>(slice: Sl) requires slice.stride == N::n(), slice.valid(), { assert(false); } /*OB:canary.slice_from_chunks_mut:*/
 
-    // extracted from src/lib.rs:997  `pub const unsafe fn const_transmute<A, B>(a: A) -> B`
+    // extracted from src/lib.rs:1000  `pub const unsafe fn const_transmute<A, B>(a: A) -> B`
     pub fn const_transmute(a: Bits, size_b: usize) -> (ret: PanicOr<Bits>)
         ensures
             ret is Panic <==> a.size != size_b, /*OB:const_transmute.post.panics-iff-sizes-differ:C02,C10,C11*/
